@@ -342,6 +342,8 @@ pub fn generate(rng: &mut Rng, max_cmds: usize) -> Mega {
     if rng.chance(1, 4) {
         case.write_limit = *rng.pick(&[1usize, 7, 64, 1000]);
     }
+    // the documented entry points are interchangeable
+    case.via_run_on_stream = rng.chance(1, 5);
     Mega { conv, exps, case, desc, hs: hs_class }
 }
 
@@ -435,6 +437,48 @@ pub fn run(ctx: &Ctx, prop: &'static str, quick: u64, thorough: u64) -> Report {
                         }
                     }
                     rep.counters.inc("mega_compared_with_single_read_twin");
+                }
+            }
+        }
+        // ---- the same conversation over a real TCP socket on the loopback interface (run_on_tcp): the
+        //      kernel chooses the chunking; callbacks and bytes must equal the in-memory run's
+        if prop == "C02" && !ctx.miri && i % 8 == 0 && m.case.fault.err_at.is_none() {
+            match run_case_tcp(&m.case) {
+                Err(e) => {
+                    // an extra layer: the in-memory runs decide; without a loopback interface this one is skipped
+                    rep.counters.inc("loopback_tcp_runs_not_possible");
+                    if rep.notes.len() < 3 {
+                        rep.notes.push(format!("loopback TCP run could not be set up: {}", e));
+                    }
+                }
+                Ok(t) => {
+                    if let Outcome::Panic { file, line, msg } = &t.outcome {
+                        if !matches!(obs.outcome, Outcome::Panic { .. }) {
+                            fail(&format!("tcp {}", panic_signature(file, *line, msg)), format!("over a real TCP socket run_on_tcp panicked ({}), over the in-memory transport it returned {}", t.outcome.describe(), obs.outcome.describe()), rep);
+                            return;
+                        }
+                    } else if !matches!(obs.outcome, Outcome::Panic { .. }) {
+                        let a: Vec<&CbKind> = obs.log.cbs.iter().map(|c| &c.kind).collect();
+                        let b: Vec<&CbKind> = t.log.cbs.iter().map(|c| &c.kind).collect();
+                        if a != b {
+                            let k = a.iter().zip(b.iter()).position(|(x, y)| x != y).unwrap_or(a.len().min(b.len()));
+                            fail("tcp-callbacks-differ", format!("callback #{} over a real TCP socket is {}, over the in-memory transport {} ({} vs {} callbacks)", k, t.log.cbs.get(k).map(cb_summary).unwrap_or("none".into()), obs.log.cbs.get(k).map(cb_summary).unwrap_or("none".into()), b.len(), a.len()), rep);
+                            return;
+                        }
+                        if t.outcome.class() != obs.outcome.class() {
+                            fail("tcp-outcome-differs", format!("run_on_tcp returned {}, run_on over the in-memory transport {}", t.outcome.describe(), obs.outcome.describe()), rep);
+                            return;
+                        }
+                        let mem = obs.output();
+                        // after an error return the socket is closed with unread input: the tail of the
+                        // output may be lost to the reset, so only a prefix can be demanded then
+                        let same = if t.outcome == Outcome::Ok { t.output == mem } else { mem.starts_with(&t.output) };
+                        if !same {
+                            fail("tcp-output-differs", format!("the bytes a real TCP peer received ({}) differ from the in-memory transport's ({}), first difference at {:?}", t.output.len(), mem.len(), first_diff(&t.output, &mem)), rep);
+                            return;
+                        }
+                        rep.counters.inc("mega_conversations_repeated_over_loopback_tcp");
+                    }
                 }
             }
         }
